@@ -8,12 +8,21 @@
 #ifndef V_K
 # define V_K 8
 #endif
+#ifndef V_IP6_MODE
+# define V_IP6_MODE 0
+#endif
 void harness(void) {
 	URI_TYPE(Uri) u; URI_TYPE(ParserState) st;
 	unsigned char want[16]; unsigned long used; const URI_CHAR *r; URI_CHAR *text; int i, same;
 	ND_ARR(URI_CHAR, head, V_K);
 	ND(size_t, n);
 	__CPROVER_assume(n <= V_K);
+#if V_IP6_MODE == 1
+	/* slice of the input space: "::" followed by digits, dots and ']' only - the embedded-IPv4 tail, which needs 9..18
+	 * characters and is out of reach of the unrestricted obligation's bound */
+	__CPROVER_assume(n >= 2 && head[0] == _UT(':') && head[1] == _UT(':'));
+	for (i = 2; i < V_K; i++) __CPROVER_assume((head[i] >= _UT('0') && head[i] <= _UT('9')) || head[i] == _UT('.') || head[i] == _UT(']'));
+#endif
 	text = malloc((n ? n : 1) * sizeof(URI_CHAR));
 	__CPROVER_assume(text != NULL);
 	for (i = 0; i < V_K; i++) if ((size_t)i < n) text[i] = head[i];
@@ -22,7 +31,7 @@ void harness(void) {
 	u.hostData.ip6 = vmm_give(sizeof(UriIp6));     /* as uriParseIpLit2 leaves it: block allocated, content indeterminate */
 	u.hostText.first = text;
 	st.uri = &u; st.errorCode = 0; st.errorPos = NULL; st.reserved = NULL;
-	VCOVER(n == V_K && head[0] == _UT(':') && head[1] == _UT(':'), "a literal of V_K characters starting with '::'");
+	VCOVER(n == V_K && head[0] == _UT(':') && head[1] == _UT(':') && head[V_K - 1] == _UT(']'), "a literal of V_K characters starting with '::'");
 	VCOVER_END;
 	r = URI_FUNC(ParseIPv6address2)(&st, text, text + n, &vmm);
 	used = spec_ip6(text, n, want);
